@@ -16,6 +16,12 @@ package limit
 // clock (core/timex).  The drivers install the verification clock hook (timex.VerifNow, tag
 // verif) as "real elapsed time + offset" and move the offset past the breaker's window every
 // time an outage ends, so that an answered store is never hidden behind an open breaker.
+//
+// Real time enters in two places only, both because core/limit reads it without a hook:
+// the recovery monitor's 100 ms ticker (limWorld.probe / tokTrace.settle: the driver proves with
+// its OWN client that the store answers and reports for how long an instance lingered in
+// fallback mode) and Align()'s time.Now() (limLocalSec: every Take is bracketed by two reads of
+// the local wall-clock second).
 
 import (
 	"context"
@@ -31,6 +37,7 @@ import (
 
 	"github.com/alicebob/miniredis/v2"
 	"github.com/alicebob/miniredis/v2/server"
+	red "github.com/redis/go-redis/v9"
 	"github.com/zeromicro/go-zero/core/logx"
 	"github.com/zeromicro/go-zero/core/stores/redis"
 	"github.com/zeromicro/go-zero/core/timex"
@@ -159,6 +166,9 @@ type limWorld struct {
 	mode   string // "up" | "down"
 	closed bool   // the outage in progress drops connections
 	broken bool   // infrastructure trouble: drop the trace
+	retire bool   // the trace is complete, but the world must not be used again (a limiter of the
+	// trace was left in fallback mode, its monitor may ping for ever)
+	probe *red.Client // the driver's own connection to the store (no breaker, no go-zero code)
 	clk    int64  // ms since the start of the trace
 	mu     sync.Mutex
 	evs    []verifEv
@@ -237,8 +247,9 @@ func newLimWorld(t *testing.T) *limWorld {
 		w := &limWorld{t: t, m: m, mode: "up"}
 		m.Server().SetPreHook(w.preHook)
 		w.r = redis.New(m.Addr(), redis.WithHook(limHook{}))
-		if !w.r.Ping() {
-			m.Close()
+		w.probe = red.NewClient(&red.Options{Addr: m.Addr(), MaxRetries: -1, PoolSize: 2})
+		if !w.r.Ping() || !w.probePing() {
+			w.close()
 			continue
 		}
 		// warm-up: the first use of a script on a server is EVALSHA -> NOSCRIPT -> EVAL, and the
@@ -251,6 +262,32 @@ func newLimWorld(t *testing.T) *limWorld {
 		return w
 	}
 	return nil
+}
+
+func (w *limWorld) close() {
+	if w == nil {
+		return
+	}
+	if w.probe != nil {
+		w.probe.Close()
+	}
+	w.m.Close()
+}
+
+// probePing: does the store answer a PING of the driver's own client right now?  (The injected
+// outages refuse this client like every other one.)
+func (w *limWorld) probePing() bool {
+	ctx, cancel := context.WithTimeout(context.Background(), 2*time.Second)
+	defer cancel()
+	v, err := w.probe.Ping(ctx).Result()
+	return err == nil && v == "PONG"
+}
+
+// limLocalSec is the local wall-clock second as PeriodLimit's Align() computes it.
+func limLocalSec() int64 {
+	now := time.Now()
+	_, offset := now.Zone()
+	return now.Unix() + int64(offset)
 }
 
 func (w *limWorld) emit(ev verifEv) {
@@ -329,14 +366,14 @@ func limRunTraces(t *testing.T, em *verifEmitter, par int, jobs int, run func(w 
 				t.Errorf("cannot start a miniredis store")
 				return
 			}
-			defer func() { w.m.Close() }()
+			defer func() { w.close() }()
 			for {
 				job := int(atomic.AddInt64(&next, 1))
 				if job >= jobs {
 					return
 				}
-				if w.broken {
-					w.m.Close()
+				if w.broken || w.retire {
+					w.close()
 					if w = newLimWorld(t); w == nil {
 						t.Errorf("cannot start a miniredis store")
 						return
